@@ -124,7 +124,8 @@ def cases(draw):
         kinds.append('none')
     for _ in range(draw(st.integers(3, 30))):
         kind = draw(st.sampled_from(kinds))
-        op = {'op': kind, 'key': draw(st.integers(0, len(keys) - 1)), 'path': draw(st.integers(0, len(paths) - 1))}
+        op = {'op': kind, 'key': draw(st.integers(0, len(keys) - 1)), 'path': draw(st.integers(0, len(paths) - 1)),
+              'root': draw(st.sampled_from([0, 0, 1]))}
         if kind in ('goc', 'force'):
             op['value'] = _enc(ctype, draw(vs))
         if kind == 'raise':
@@ -173,20 +174,23 @@ def eval_case(case, rec):
     is_file = ctype != 'memory'
     tmp = hyp.scratch_dir('tcv-c14-')
     try:
-        root = _make(tc, ctype, tmp / 'cache')
+        # two independent root caches (different directories): same sub-cache names and keys in both are unrelated entries
+        roots = [_make(tc, ctype, tmp / 'cache'), _make(tc, ctype, tmp / 'cache_b')]
         model = {}
         flags = {'damage_pending': set(), 'raise_pending': set(), 'nontrivial': False}
         classes = {'type:' + ctype}
         for step, op in enumerate(case['ops']):
             key = case['keys'][op['key']]
             path = case['paths'][op['path']]
-            mk = (_pk(case, path), key)
+            ri = op.get('root', 0)
+            root = roots[ri]
+            mk = (ri, _pk(case, path), key)
             cur = model.get(mk, ABSENT)
             info = {'step': step, 'op': op, 'key': key, 'path': path, 'ctype': ctype}
             kind = op['op']
             if kind == 'reopen':
                 if is_file:
-                    root = _make(tc, ctype, tmp / 'cache')
+                    roots = [_make(tc, ctype, tmp / 'cache'), _make(tc, ctype, tmp / 'cache_b')]
                     classes.add('reopen')
                 continue
             cache = _sub(root, path)
@@ -200,7 +204,7 @@ def eval_case(case, rec):
                 how = op['how']
                 if how == 'cross':
                     ok = case['keys'][op['other']]
-                    other = model.get((_pk(case, path), ok), ABSENT)
+                    other = model.get((ri, _pk(case, path), ok), ABSENT)
                     if ok == key or other is ABSENT or other is MISMATCH or not ctype.startswith('json'):
                         continue
                     shutil.copyfile(cache.filepath(ok), fp)
@@ -311,12 +315,12 @@ def eval_case(case, rec):
             model[mk] = new
         # final sweep on a re-opened cache: every model entry is served by get, every absent one is NO_VALUE
         if is_file:
-            root = _make(tc, ctype, tmp / 'cache')
-        for pi, path in enumerate(case['paths']):
-            cache = _sub(root, path)
+            roots = [_make(tc, ctype, tmp / 'cache'), _make(tc, ctype, tmp / 'cache_b')]
+        for ri, pi, path in [(r_, i_, p_) for r_ in (0, 1) for i_, p_ in enumerate(case['paths'])]:
+            cache = _sub(roots[ri], path)
             for key in case['keys']:
-                cur = model.get((_pk(case, path), key), ABSENT)
-                info = {'step': 'final', 'key': key, 'path': path, 'ctype': ctype, 'model_state': _st(cur)}
+                cur = model.get((ri, _pk(case, path), key), ABSENT)
+                info = {'step': 'final', 'key': key, 'path': path, 'root': ri, 'ctype': ctype, 'model_state': _st(cur)}
                 try:
                     got = cache.get(key)
                 except tc.CacheException:
@@ -336,6 +340,8 @@ def eval_case(case, rec):
                     raise Violation('final-wrong-value', dict(info, got=repr(got)[:200], want=repr(cur)[:200]))
         if len(case['paths']) > 1:
             classes.add('subcaches')
+        if any(op.get('root') for op in case['ops']):
+            classes.add('two-root-caches')
         rec.case(case, nontrivial=flags['nontrivial'], classes=sorted(classes))
     finally:
         hyp.drop_scratch(tmp)
